@@ -5,6 +5,9 @@
 (*  Reset api hist belt          api "fn": the functions of recent_history called     *)
 (*                               one by one; "stf": STFBetaH2BetaHDagger +            *)
 (*                               STFBetaHDagger2BetaHPrime on the chain-state singleton*)
+(*                               "tv": STFBetaHDagger2BetaHPrime_ForTestVector (header hash  *)
+(*                               taken from Header.Parent, commitment supplied = want_b,       *)
+(*                               belt maintained outside: got_belt echoes want_belt)           *)
 (*  Block hh proot gs outs want_mroot want_belt want_b                                *)
 (*        got_dagger got_ser got_mroot got_belt got_b got_p got_hist   (fn)           *)
 (*        got_dagger got_belt got_hist                                 (stf)          *)
